@@ -6,8 +6,6 @@
         axis_grid   = linspace(lo, hi, n + 1)[:-1]                 -- lo + (hi - lo)·i/n
         axis_points = axis_grid + (hi - lo)/n · rand(n)
         column      = axis_points[randperm(n)]
-  * one proposal of `GaussianSampler._sample_points`: `Normal(mean, std).sample` = mean + std·z with a
-    standard normal draw `z` (the draw itself is trusted, see obligations/C11.json).
   * `Interval.sample_grid(n)` as a whole list (the single point is `intervalGrid` of GeomSample).
 -/
 import TPV.Model.GeomSample
@@ -26,9 +24,6 @@ def lhsAxisPoint (lo hi : K) (n i : Nat) (u : K) : K :=
     addresses a stratum that has no shift (cannot happen in the code: both have length `n`). -/
 def lhsAxis (lo hi : K) (n : Nat) (us : List K) (perm : List Nat) : Option (List K) :=
   perm.mapM fun i => (us[i]?).map (lhsAxisPoint lo hi n i)
-
-/-- one coordinate of a Gaussian proposal -/
-def gaussPoint (mean std z : K) : K := mean + std * z
 
 /-- `Interval.sample_grid(n)`: all `n` points -/
 def intervalGridList (l u : K) (n : Nat) : List K := (List.range n).map (intervalGrid l u n)
